@@ -158,6 +158,9 @@ func (x *Exec) run() {
 				ts[i] = x.fresh("in."+g+l.Name, l.Sort)
 			}
 			st.ghost[g] = x.unflattenS(T, ts)
+			if x.C.GhostVarAlloc[g] && T.Math == "set" {
+				x.assume(Term{fmt.Sprintf("(forall ((r Int)) (! (=> (select %s r) (<= r wm0)) :pattern ((select %s r))))", ts[0].S, ts[0].S), SBool})
+			}
 		}
 	}
 	entry := st.clone()
